@@ -470,6 +470,7 @@ impl Check for C12Check {
             force_batch1: true,
             bridge_dups: false,
             abort_before_poll: false,
+            legacy_drops: false,
         };
         let mut prng = rng.fork("programs");
         let np = prng.range(1, 2) as usize;
@@ -484,7 +485,7 @@ impl Check for C12Check {
         let so = gen_script(&mut srng, programs, host, &sc);
         let steps: Vec<Vec<Action>> = so.steps.into_iter().take(so.drain_from + 3).collect();
         Scn12 {
-            base: Scenario { host, steps, hash_seed: 0, buggify: false, drain_from: 0, adaptive_drain: false, defer_drops: false, bridge_dups: false },
+            base: Scenario { host, steps, hash_seed: 0, buggify: false, drain_from: 0, adaptive_drain: false, defer_drops: false, bridge_dups: false, legacy_drops: false },
             json,
             only: None,
             seed: rng.next_u64(),
